@@ -37,6 +37,8 @@ Definition fXC := 9.  (* confirm of the current eject: 0 = by the target's count
                          expected at the target although the source's eject is over *)
 Definition fLI := 10. (* pending: incoming balls whose ball_missing_timeout expired (taken off the list),
                          lost_incoming_ball not yet called *)
+Definition fRDY := 11. (* 1: the readiness check of the current eject attempt has been passed and announced
+                          (balldevice_d_ejecting_ball posted right after wait_for_ready_to_receive returned) *)
 Definition UNCONF : Z := 100.   (* list entry s + UNCONF: ball of source s that has not passed its confirm
                                    switch/event yet (IncomingBall.can_arrive = False) *)
 
@@ -186,7 +188,8 @@ Definition step (c : cfg) (x : st) (l : label) : option st :=
   | LState d s =>
       if negb (isdev c d) then None else
       let old := f x fS d in
-      let x1 := setf (setf x fS d s) fDEC d 0 in
+      let x0 := if (s =? IDLE) || (s =? WFB) || (s =? WTR) then setf x fRDY d 0 else x in
+      let x1 := setf (setf x0 fS d s) fDEC d 0 in
       if s =? BL then
         let t := f x fTG d in
         if negb ((1 <=? f x fC d) && negb (blfc old)) then None
@@ -225,9 +228,13 @@ Definition step (c : cfg) (x : st) (l : label) : option st :=
   | LEntered d _ => guard (isdev c d) x
   | LAttempt d _ _ => guard (isdev c d) x
   | LEjecting d t _ =>
+      (* posted directly after target.wait_for_ready_to_receive(d) returned (no await in between): the target must
+         have a free place beyond the balls it expects from other sources -- MPF's own numbers AT THE CHECK; the coil
+         fires a few ms later (count settle, PSU arbitration), when another source may already have registered *)
       if negb (isdev c d && ((t =? PF) || isdev c t)) then None else
-      let x1 := setf x fTG d t in
-      if t =? PF then Some (addz x1 zREQP 1) else Some x1
+      let x1 := setf (setf x fTG d t) fRDY d 1 in
+      if t =? PF then Some (addz x1 zREQP 1)
+      else guard (Z.of_nat (length (others d (inc x t))) <? cap c t - f x fC t) x1
   | LPfReq delta =>
       if delta =? 1 then guard (1 <=? z x zREQP) (addz (addz x zREQP (-1)) zR 1)
       else if delta =? -1 then guard (1 <=? z x zREQM) (addz (addz x zREQM (-1)) zR (-1))
@@ -267,10 +274,7 @@ Definition step (c : cfg) (x : st) (l : label) : option st :=
   | LBroken d => guard (isdev c d) x
   | LPulse d =>
       (* (an entrance-counted device is in ball_left 10 ms after the command; the driver may delay the pulse) *)
-      if negb (isdev c d && ((f x fS d =? EJECTING) || (f x fS d =? BL))) then None else
-      let t := f x fTG d in
-      if t =? PF then Some x
-      else guard (isdev c t && (Z.of_nat (length (others d (inc x t))) <? cap c t - f x fC t)) x
+      guard (isdev c d && ((f x fS d =? EJECTING) || (f x fS d =? BL)) && (f x fRDY d =? 1)) x
   | LExtWait d =>
       let t := f x fTG d in
       guard (isdev c d && isdev c t && (f x fS d =? BL) && (f x fXC d =? 0) && memz d (inc x t))
